@@ -71,7 +71,16 @@ ASSUMPTIONS = [
     "LUT abscissae, deformations, channel widths, flow rates and "
     "viscosities are positive and finite (theorem hypotheses lut_ok/"
     "setup_ok); NaN/inf events are covered by the property oracle only",
-    "copy=True (the documented copy=False overrides the inputs on purpose)",
+    "copy=True for the no-mutation clause (the documented copy=False "
+    "overrides the deform array on purpose; its effect is modelled and tied: "
+    "get_emodulus_mem / run_case_nocopy)",
+    "the Coq correspondence uses tables in general position (unique "
+    "Delaunay triangulation); tables on a regular grid (cocircular cells, "
+    "non-unique triangulation) are generated for the property oracle only, "
+    "which accepts either diagonal of a cocircular cell in the reference "
+    "but demands the SAME value across routes, set-ups, batches and calls",
+    "exception classes of load/register errors are not part of the property "
+    "(compared as error / no error)",
     "extrapolate=False (spline extrapolation is outside the property)",
 ]
 
@@ -96,10 +105,17 @@ def ref_delta(feat, x, px):
             + 0.0032 * np.exp(-x * s / 6040))
 
 
-MEDIA = {"CellCarrier": "0.49% MC-PBS", "0.49% MC-PBS": "0.49% MC-PBS",
-         "CellCarrierB": "0.59% MC-PBS", "0.59% MC-PBS": "0.59% MC-PBS",
-         "cellcarrier b": "0.59% MC-PBS",
-         "0.83% MC-PBS": "0.83% MC-PBS", "water": "water"}
+_SAME = {"0.49% MC-PBS": ["0.49% MC-PBS", "0.5% MC-PBS", "0.50% MC-PBS",
+                          "CellCarrier"],
+         "0.59% MC-PBS": ["0.59% MC-PBS", "0.6% MC-PBS", "0.60% MC-PBS",
+                          "CellCarrier B", "CellCarrierB"],
+         "0.83% MC-PBS": ["0.83% MC-PBS", "0.8% MC-PBS", "0.80% MC-PBS"],
+         "water": ["water"]}
+MEDIA = {}
+for _k, _names in _SAME.items():
+    for _nm in _names:
+        MEDIA[_nm] = _k
+        MEDIA[_nm.lower()] = _k
 
 
 def ref_viscosity(medium, model, cw, fr, temp):
@@ -146,7 +162,9 @@ def emod_dir():
 
 
 class Lut:
-    def __init__(self, feat, cw, fr, visc, nodes, name=None, dec=None):
+    def __init__(self, feat, cw, fr, visc, nodes, name=None, dec=None,
+                 grid=False):
+        self.grid = grid          # nodes on a regular grid: cocircular
         self.feat = feat
         self.cw = float(cw)
         self.fr = float(fr)
@@ -226,8 +244,33 @@ def builtin_lut(name):
     return _LUTS[name]
 
 
+def gen_grid_lut(rng, feat=None):
+    """A table on a regular grid: every cell is cocircular, the Delaunay
+    triangulation is NOT unique (qhull picks the diagonal by rounding)."""
+    feat = feat or rng.choice(["area_um", "area_um", "volume"])
+    nx, ny = rng.randint(3, 9), rng.randint(3, 9)
+    xlo = rng.choice([8.0, 20.0, 33.3])
+    xhi = xlo + rng.choice([90.0, 280.0, 1000.0 / 3])
+    dlo, dhi = rng.choice([0.001, 0.005]), rng.choice([0.05, 0.15, 0.2])
+    xs = np.linspace(xlo, xhi, nx)
+    ds = np.linspace(dlo, dhi, ny)
+    if rng.random() < 0.3:      # geometric spacing in x: still cocircular
+        xs = xlo * (xhi / xlo) ** np.linspace(0, 1, nx)
+    k1, k2 = rng.uniform(10, 25), rng.uniform(10, 40)
+    nodes = []
+    for dv in ds:
+        for xv in xs:
+            e = 1 + k1 * (xv / xhi) / (1 + k2 * dv) \
+                + 0.3 * math.sin(xv / 17.0) * math.cos(dv * 90)
+            nodes.append([float(xv), float(dv), float(e)])
+    cw = rng.choice([20.0, 30.0, 15.0, 40.0, 24.5])
+    fr = rng.choice([0.04, 0.125, 0.16, 0.5])
+    visc = rng.choice([15.0, 6.0, 1.5, 7.25])
+    return Lut(feat, cw, fr, visc, nodes, grid=True)
+
+
 def gen_user_lut(rng, dyadic=True, nmin=5, nmax=40, feat=None):
-    """A small table: scattered nodes (no grid, so that the Delaunay
+    """A small table in general position (scattered nodes: the Delaunay
     triangulation is unique), emodulus a smooth function plus noise."""
     feat = feat or rng.choice(["area_um", "area_um", "volume"])
     n = rng.randint(nmin, nmax)
@@ -258,14 +301,16 @@ def gen_user_lut(rng, dyadic=True, nmin=5, nmax=40, feat=None):
 def lut_from_case(cl):
     if cl["kind"] == "builtin":
         return builtin_lut(cl["name"])
-    return Lut(cl["feat"], cl["cw"], cl["fr"], cl["visc"], cl["nodes"])
+    return Lut(cl["feat"], cl["cw"], cl["fr"], cl["visc"], cl["nodes"],
+               grid=bool(cl.get("grid")))
 
 
 def lut_to_case(L, via="tuple"):
     if L.name:
         return dict(kind="builtin", name=L.name)
     return dict(kind="user", feat=L.feat, cw=L.cw, fr=L.fr, visc=L.visc,
-                nodes=[[float(v) for v in r] for r in L.nodes], via=via)
+                nodes=[[float(v) for v in r] for r in L.nodes], via=via,
+                grid=L.grid)
 
 
 # --------------------------------------------------------------------------
@@ -406,13 +451,11 @@ def reference(L, cw, fr, px, med, x, d):
     x = np.asarray(x, dtype=float)
     d = np.asarray(d, dtype=float)
     n = x.size
-    route = route_of(med)
-    P, T, xm, dm, H = L.normalised(cw, route)
+    # the interpolation grid is the table itself (both axes divided by
+    # their maximum); the event is brought to the table's channel width
+    P, T, xm, dm, H = L.normalised(cw, "array")
     dc = d - ref_delta(L.feat, x, px) if px else d.copy()
-    if route == "scalar":
-        qx = x / xm
-    else:
-        qx = (x * (L.cw / cw) ** L.pw if cw != L.cw else x) / xm
+    qx = (x * (L.cw / cw) ** L.pw if cw != L.cw else x) / xm
     Q = np.column_stack((qx, dc / dm))
     fin = np.isfinite(Q).all(axis=1)
     s = np.full(n, -1)
@@ -464,6 +507,43 @@ def reference(L, cw, fr, px, med, x, d):
     return E, dist, cond, (Q, s, T, P)
 
 
+def alt_interps(P, V, T, k, q):
+    """For a table whose Delaunay triangulation is not unique: the values at
+    q of the linear interpolants in the triangulations obtained from simplex
+    k by flipping the diagonal of a cocircular quadrilateral (k and one of
+    its neighbours)."""
+    out = []
+    tri = T.simplices[k]
+    for j, nb in enumerate(T.neighbors[k]):
+        if nb < 0:
+            continue
+        w = tri[j]                                   # opposite to the edge
+        u, v = [tri[m] for m in range(3) if m != j]
+        z = [t for t in T.simplices[nb] if t not in (u, v)]
+        if len(z) != 1:
+            continue
+        z = z[0]
+        A, B, C, Dp = P[u], P[v], P[w], P[z]
+        # in-circle determinant of (u, v, w, z), relative
+        M = np.array([[pt[0] - Dp[0], pt[1] - Dp[1],
+                       (pt[0] - Dp[0]) ** 2 + (pt[1] - Dp[1]) ** 2]
+                      for pt in (A, B, C)])
+        scale = np.abs(M).max() ** 4 + 1e-300
+        if abs(np.linalg.det(M)) > 1e-9 * scale:
+            continue
+        for (a, b, c) in ((w, z, u), (w, z, v)):
+            pa, pb, pc = P[a], P[b], P[c]
+            dd = cross2(pa, pb, pc)
+            if dd == 0:
+                continue
+            l1 = cross2(q, pb, pc) / dd
+            l2 = cross2(pa, q, pc) / dd
+            l3 = cross2(pa, pb, q) / dd
+            if min(l1, l2, l3) >= -1e-12:
+                out.append(l1 * V[a] + l2 * V[b] + l3 * V[c])
+    return out
+
+
 def compare_values(ref, got, dist, cond, rtol=RTOL):
     """indices where the implementation disagrees with the reference"""
     bad = []
@@ -507,11 +587,15 @@ def gen_setup(rng, L, nice=True, other_px=False):
     return cw, fr, px
 
 
-KNOWN = [("CellCarrier", "herold-2017"), ("CellCarrierB", "herold-2017"),
-         ("0.49% MC-PBS", "buyukurganci-2022"),
-         ("0.59% MC-PBS", "buyukurganci-2022"),
-         ("0.83% MC-PBS", "buyukurganci-2022"),
-         ("water", "kestin-1978"), ("CellCarrier", "herold-2017-fallback")]
+KNOWN = []
+for _nm, _k in sorted(MEDIA.items()):
+    if _k == "water":
+        KNOWN.append((_nm, "kestin-1978"))
+    else:
+        KNOWN.append((_nm, "buyukurganci-2022"))
+        if _k != "0.83% MC-PBS":
+            KNOWN.append((_nm, "herold-2017"))
+KNOWN.append(("CellCarrier", "herold-2017-fallback"))
 
 
 def gen_medium(rng, n, L, cw, fr, force=None):
@@ -524,6 +608,8 @@ def gen_medium(rng, n, L, cw, fr, force=None):
         return dict(kind="num", v=v)
     name, model = rng.choice(KNOWN)
     lo, hi = (22.0, 26.0) if name != "water" else (5.0, 38.0)
+    if rng.random() < 0.2:
+        lo, hi = rng.choice([(8.0, 17.0), (27.0, 45.0), (10.0, 45.0)])
     if k == "scalar":
         return dict(kind="known", name=name, model=model,
                     temp=quant(rng.uniform(lo, hi), 4))
@@ -839,7 +925,7 @@ def correspondence(run):
     for name in names:
         L = builtin_lut(name)
         groups.append((L, True, [gen_corr_case(rng, L, n=3, builtin=True)
-                                 for _ in range(8 if run.thorough else 2)]))
+                                 for _ in range(4 if run.thorough else 2)]))
 
     # small (generated) tables travel with their cases, several tables per
     # coqc run; a built-in table is defined once in the header of its run
@@ -859,10 +945,20 @@ def correspondence(run):
             small_i += infos
         else:
             jobs.append(("c05_g%d" % gi, HEADER + render_lut(L, use_dec),
-                         "run_case lut0", rendered, infos, 8))
+                         "run_case lut0", rendered, infos, 2))
     if small_r:
         jobs.append(("c05_s", HEADER, "(fun lc => run_case (fst lc) (snd lc))",
                      small_r, small_i, 12))
+    # copy=False on float64 arrays: the memory model (get_emodulus_mem)
+    # predicts the final contents of the caller's arrays
+    nc = [k for k, inf in enumerate(small_i)
+          if inf[0]["x"] and not inf[0].get("nd") and k % 4 == 0]
+    nocopy_job = None
+    if nc:
+        nocopy_job = ("c05_nc", HEADER,
+                      "(fun lc => run_case_nocopy (fst lc) (snd lc))",
+                      [small_r[k] for k in nc], [small_i[k] for k in nc], 12)
+        jobs.append(nocopy_job)
 
     def work(job):
         name, hdr, fn, rendered, infos, shard = job
@@ -873,6 +969,10 @@ def correspondence(run):
         results = list(ex.map(work, jobs))
     for job, res in zip(jobs, results):
         infos = job[4]
+        if job is nocopy_job:
+            for (case, kinds, dist, cond, L), flat in zip(infos, res):
+                nocopy_compare(run, case, L, flat, dist, cond)
+            continue
         for (case, kinds, dist, cond, L), flat in zip(infos, res):
             model = decode_model(flat)
             impl = run_impl(case, L)
@@ -899,6 +999,63 @@ def correspondence(run):
                 run.mismatch(case, [str(m) for m in model] if not
                              isinstance(model, str) else model, impl,
                              what=why)
+
+
+def nocopy_compare(run, case, L, flat, dist, cond):
+    """get_emodulus(copy=False) on float64 arrays against run_case_nocopy:
+    values and the final contents of the caller's two arrays"""
+    n = len(case["x"])
+    x = np.array(case["x"], dtype=float)
+    d = np.array(case["d"], dtype=float)
+    arg = L.name if L.name else lut_arg_tuple(L)
+    run.count("corr:copy=False")
+    run.corr_checked += 1
+    try:
+        e = call_emod(L, arg, case["cw"], case["fr"], case["px"],
+                      case["medium"], x, d, copy=False)
+    except Exception:
+        return      # where the exception interrupts the in-place updates is
+        #             not part of the property
+    # decode: result, 77, x cells, 77, d cells
+    i, model = 0, []
+    for _ in range(n):
+        if flat[i] == 0:
+            model.append(None)
+            i += 1
+        else:
+            model.append(Fraction(flat[i + 1], flat[i + 2]))
+            i += 3
+    why = compare_model(model, [float(v) for v in np.atleast_1d(e)], dist,
+                        cond)
+    cells = []
+    for _ in range(2):
+        if flat[i] != 77:
+            why = why or "malformed model output"
+            break
+        i += 1
+        cells.append([Fraction(flat[i + 2 * k], flat[i + 2 * k + 1])
+                      for k in range(n)])
+        i += 2 * n
+    if why is None:
+        dm = float(L.nodes[:, 1].max())
+        d0 = np.array(case["d"], dtype=float)
+        for nm, arr, cell in (("abscissa", x, cells[0]),
+                              ("deform", d, cells[1])):
+            for k in range(n):
+                mv = float(cell[k])
+                # deform - offset may cancel: absolute slack from the inputs
+                slack = 1e-13 * abs(d0[k]) / dm if nm == "deform" else 0.0
+                if abs(mv - arr[k]) > 1e-11 * abs(mv) + slack + 1e-300:
+                    why = ("copy=False: %s array element %d is %r after the "
+                           "call, the model says %r" % (nm, k, float(arr[k]),
+                                                        mv))
+                    break
+            if why:
+                break
+    if why is not None:
+        run.mismatch(dict(case, copy=False), [str(v) for v in flat[:12]],
+                     [float(v) for v in np.atleast_1d(e)],
+                     what="copy=False: " + why)
 
 
 # --------------------------------------------------------------------------
@@ -929,7 +1086,7 @@ def gen_filespec(rng):
     elif r < 0.58:
         cols = [(1, 1), (0, 0), (2, 2), (3, 3)]    # four header columns
     units = [rng.random() > 0.08 for _ in range(3)]
-    return dict(cols=cols, units=units, tag=rng.randint(1, 900),
+    return dict(cols=cols, units=units, tag=rng.randint(10, 900),
                 ident=rng.choice([None, 1, 2]))     # index into id pool
 
 
@@ -1109,7 +1266,28 @@ def registry_correspondence(run):
                          "(fun c => run_load_ops (fst (fst c)) (snd (fst c)) "
                          "(snd c))", rendered,
                          shard=50)
+    def collapse(out, ops):
+        """the property does not fix exception classes: error codes -> 1"""
+        res_, k = [], 0
+        for tag, x, y in ops:
+            if tag == 2 or k >= len(out):
+                continue
+            v = out[k]
+            if tag == 0:
+                res_.append(min(v, 1))
+                k += 1
+            elif v == 0:
+                res_ += out[k:k + 4]
+                k += 4
+            else:
+                res_.append(1)
+                k += 1
+                if k < len(out) and out[k] >= 10:
+                    res_.append(out[k])
+                    k += 1
+        return res_ + out[k:]
     for case, m, i in zip(cases, res, expected):
+        m, i = collapse(m, case["ops"]), collapse(i, case["ops"])
         run.record_case(case, True, sample=False)
         run.count("corr:registry")
         for o in case["ops"]:
@@ -1118,6 +1296,170 @@ def registry_correspondence(run):
         run.corr_checked += 1
         if m != i:
             run.mismatch(case, m, i, what="registry/loading bookkeeping")
+
+
+def history_correspondence(run):
+    """run_ops of the model (get_emodulus_w, register_lut, OWriteFile,
+    OMutate) against the real code on random histories: calls by path, by
+    registered identifier and by (array, meta); the user rewrites files and
+    modifies his array between calls"""
+    from dclab.features import emodulus as em
+    from dclab.features.emodulus import load
+    rng = run.rng
+    d = os.path.join(run.scratch, "hist")
+    os.makedirs(d, exist_ok=True)
+    rendered, expected, cases = [], [], []
+
+    def good_spec():
+        sp = gen_filespec(rng)
+        if rng.random() < 0.85:
+            sp["cols"] = rng.choice([[(1, 1), (0, 0), (2, 2)],
+                                     [(3, 3), (0, 0), (2, 2)]])
+            sp["units"] = [True, True, True]
+        sp["ident_code"] = None
+        return sp
+
+    def q3(rows):
+        return "[%s]" % "; ".join("(%s,%s,%s)" % tuple(qlit(v) for v in r)
+                                  for r in rows)
+    for ci in range(120 if run.thorough else 30):
+        strs = {10: os.path.join(d, "h%d_a.txt" % ci),
+                11: os.path.join(d, "h%d_b.txt" % ci),
+                30: "verif-hist-%d-%d" % (os.getpid(), ci)}
+        files = {10: good_spec(), 11: good_spec()}
+        for code, sp in files.items():
+            write_filespec(strs[code], sp, None)
+        tfeat = rng.choice([1, 3])
+        trow0 = filespec_rows(dict(tag=rng.randint(1, 900)))
+        arr = np.array(trow0, dtype=float)
+        tmeta = {"channel_width": 20.0, "flow_rate": 0.04,
+                 "fluid_viscosity": 15.0,
+                 "column features": [FEAT_NAMES[tfeat], "deform",
+                                     "emodulus"]}
+        ops, cops, out = [], [], []
+        current = dict(files)
+        added = []
+        try:
+            for _ in range(rng.randint(5, 12)):
+                r = rng.random()
+                if r < 0.15:
+                    idc = rng.choice([30, 30, 1])
+                    p_ = rng.choice([10, 11])
+                    ops.append(["reg", p_, idc])
+                    cops.append("ORegister %d (Some %d)" % (p_, idc))
+                    before = set(load.EXTERNAL_LUTS)
+                    try:
+                        load.register_lut(strs[p_], "LE-2D-FEM-19" if idc == 1
+                                          else strs[idc])
+                        out.append(0)
+                    except Exception as exc:
+                        out.append(ERR_CODES.get(type(exc).__name__, 8))
+                    added += list(set(load.EXTERNAL_LUTS) - before)
+                elif r < 0.30:
+                    p_ = rng.choice([10, 11])
+                    sp = good_spec()
+                    ops.append(["write", p_, sp["tag"], sp["cols"],
+                                sp["units"]])
+                    cops.append("OWriteFile %d (%s)" % (p_, filespec_coq(sp)))
+                    write_filespec(strs[p_], sp, None)
+                    current[p_] = sp
+                elif r < 0.42:
+                    rows = filespec_rows(dict(tag=rng.randint(1, 900)))
+                    ops.append(["mutate", rows[0][2]])
+                    cops.append("OMutate 0 %s" % q3(rows))
+                    arr[:] = np.array(rows)          # in place, by the user
+                else:
+                    how = rng.choice(["path", "path", "ident", "tuple"])
+                    cw = rng.choice([20.0, 30.0, 15.0])
+                    fr = rng.choice([0.04, 0.16])
+                    v = rng.choice([15.0, 5.0, 7.5])
+                    if how == "tuple":
+                        vol = tfeat == 3
+                        dat = "DTuple 0 (mkMeta [%d; 0; 2] %s %s %s None)" % (
+                            tfeat, qlit(20.0), qlit(0.04), qlit(15.0))
+                        arg = (arr, tmeta)
+                    else:
+                        x_ = rng.choice([10, 11]) if how == "path" else 30
+                        pth = x_
+                        if how == "ident":
+                            reg = load.EXTERNAL_LUTS.get(strs[30])
+                            pth = {strs[10]: 10, strs[11]: 11}.get(reg)
+                        sp = current.get(pth)
+                        vol = bool(sp) and sp["cols"][0][0] == 3
+                        dat = "DName %d" % x_
+                        arg = strs[x_]
+                    pw = 3 if vol else 2
+                    k = rng.choice([0, 1, 2])
+                    xl, dl = [(10.0, 0.01), (56.0, 0.04), (500.0, 0.5)][k]
+                    xv = xl * (cw / 20.0) ** pw
+                    ops.append(["call", how, cw, fr, v, xv, dl])
+                    cops.append("OCall (%s) (mkSetup %s %s %s) (MNum %s) "
+                                "[(%s,%s)]" % (dat, qlit(cw), qlit(fr),
+                                               qlit(0.0), qlit(v), qlit(xv),
+                                               qlit(dl)))
+                    kw = dict(deform=np.array([dl]), medium=v,
+                              channel_width=cw, flow_rate=fr, px_um=0,
+                              temperature=None, visc_model=None, lut_data=arg)
+                    kw["volume" if vol else "area_um"] = np.array([xv])
+                    try:
+                        e = em.get_emodulus(**kw)
+                        out.append([float(e[0])])
+                    except Exception as exc:
+                        out.append(ERR_CODES.get(type(exc).__name__, 8))
+        finally:
+            for k_ in added:
+                load.EXTERNAL_LUTS.pop(k_, None)
+        world = ("mkWorld [%s] [(1, 101)] [] [(0%%N, %s)] 1%%N" % (
+            "; ".join("(%d, %s)" % (c, filespec_coq(sp))
+                      for c, sp in sorted(files.items())), q3(trow0)))
+        rendered.append("(%s,\n [%s])" % (world, ";\n ".join(cops)))
+        expected.append(out)
+        cases.append(dict(kind="history", ops=ops,
+                          files={str(k): dict(cols=v["cols"], units=v["units"],
+                                              tag=v["tag"])
+                                 for k, v in files.items()}))
+    res = common.coq_map(run.scratch, "c05_hist", HEADER,
+                         "(fun c => run_ops_flat (fst c) (snd c))", rendered,
+                         shard=40)
+    for case, flat, exp in zip(cases, res, expected):
+        run.record_case(case, True, sample=False)
+        run.count("corr:history")
+        for o in case["ops"]:
+            run.count("corr:history-op=%s" % o[0])
+        run.corr_checked += 1
+        # decode the model's outcomes along the expected ones
+        i, why = 0, None
+        for k, e in enumerate(exp):
+            if i >= len(flat):
+                why = "model has fewer outcomes"
+                break
+            if isinstance(e, list):
+                if flat[i] != 0:
+                    why = "op %d: model error %d, implementation %r" % (
+                        k, flat[i], e)
+                    break
+                i += 1
+                if flat[i] == 0:
+                    mv, i = None, i + 1
+                else:
+                    mv, i = Fraction(flat[i + 1], flat[i + 2]), i + 3
+                ev = e[0]
+                if (mv is None) != bool(np.isnan(ev)) or (
+                        mv is not None and
+                        abs(float(mv) - ev) > RTOL * abs(ev)):
+                    why = "op %d: model %s, implementation %r" % (
+                        k, mv if mv is None else float(mv), ev)
+                    break
+            else:
+                if min(flat[i], 1) != min(e, 1):     # classes not compared
+                    why = "op %d: model %d, implementation code %d" % (
+                        k, flat[i], e)
+                    break
+                i += 1
+        if why is None and i != len(flat):
+            why = "model has more outcomes"
+        if why:
+            run.mismatch(case, flat, exp, what="history: " + why)
 
 
 def load_corpus():
@@ -1217,14 +1559,45 @@ def chk_reference(sc, rng):
     """equals the scaled piecewise-linear interpolation; NaN exactly outside
     the support (own convex hull, exact orientation tests)"""
     E = sc.f()
-    R, dist, cond, _ = sc.ref()
-    bad = compare_values(R, E, dist, cond)
+    bad, R, dist, cond = compare_with_reference(sc, E)
     if bad:
         i = bad[0]
         return ("event %d (x=%r, deform=%r): get_emodulus=%r, scaled linear "
                 "interpolation of the LUT=%r (hull distance %.3g)" % (
-                    i, float(sc.x[i]), float(sc.d[i]), float(E[i]), float(R[i]),
-                    dist[i]))
+                    i, float(sc.x[i]), float(sc.d[i]),
+                    float(np.atleast_1d(E)[i]), float(R[i]), dist[i]))
+    return check_support(sc, E, dist)
+
+
+def compare_with_reference(sc, E):
+    """indices where E differs from every piecewise-linear interpolation of
+    the table (for cocircular tables: from both diagonals)"""
+    R, dist, cond, (Q, ss, T, P) = sc.ref()
+    bad = compare_values(R, E, dist, cond)
+    if bad and sc.L.grid:
+        # cocircular nodes: any Delaunay triangulation is a piecewise-linear
+        # interpolation of the table; accept the flipped diagonal
+        Ev = np.atleast_1d(E)
+        still = []
+        V = sc.L.nodes[:, 2]
+        vis = viscosities(sc.med, sc.cw, sc.fr, sc.x.size)
+        for i in bad:
+            ok = False
+            if ss[i] >= 0 and not np.isnan(Ev[i]):
+                k = (sc.fr / sc.L.fr) * (vis[i] / sc.L.visc) \
+                    * (sc.L.cw / sc.cw) ** 3
+                for a in alt_interps(P, V, T, ss[i], Q[i]):
+                    if abs(a * k - Ev[i]) <= (RTOL + 1e-14 * cond[i]) \
+                            * abs(Ev[i]):
+                        ok = True
+            if not ok:
+                still.append(i)
+        bad = still
+    return bad, R, dist, cond
+
+
+def check_support(sc, E, dist):
+    """NaN exactly outside the support (own hull)"""
     E = np.atleast_1d(E)
     for i in range(E.size):
         if np.isnan(dist[i]):
@@ -1489,12 +1862,51 @@ def chk_lutvia(sc, rng, scratch):
                 return "built-in identifier vs %s: event %d: %r vs %r" % (
                     (nm,) + r)
         return None
+    # (array, meta) tables of other dtypes / layouts are the same table
+    nodes = sc.L.nodes
+    meta = sc.L.meta()
+    E0 = sc.f()
+    for nm, arr in (("list of lists", nodes.tolist()),
+                    ("Fortran-ordered array", np.asfortranarray(nodes)),
+                    ("read-only array", None)):
+        if arr is None:
+            arr = nodes.copy()
+            arr.setflags(write=False)
+        r = same(E0, sc.f(arg=(arr, dict(meta))))
+        if r:
+            return "(array, meta) as %s: event %d: %r vs %r" % ((nm,) + r)
+    n32 = nodes.astype(np.float32)
+    L32 = Lut(sc.L.feat, sc.L.cw, sc.L.fr, sc.L.visc, n32.astype(float),
+              grid=sc.L.grid)
+    s32 = Scn(dict(sc.case, lut=lut_to_case(L32)))
+    E64 = s32.f()
+    _, dist32, cond32, _ = s32.ref()
+    r = close_outside_band(E64, s32.f(arg=(n32, dict(meta))), dist32, cond32)
+    if r:
+        return ("(float32 array, meta) vs the same numbers as float64: "
+                "event %d: %r vs %r" % (r[0], r[2], r[1]))
+    # an integer table (deformation in 1/4096, modulus in 1/8 units)
+    ni = np.round(nodes * np.array([8.0, 4096.0, 8.0])).astype(np.int64)
+    if len(set(map(tuple, ni[:, :2]))) == len(ni):
+        Li = Lut(sc.L.feat, sc.L.cw, sc.L.fr, sc.L.visc, ni.astype(float))
+        si = Scn(dict(sc.case, lut=lut_to_case(Li), px=0,
+                      x=list(sc.x * 8.0), d=list(sc.d * 4096.0)))
+        Ef = si.f()
+        _, disti, condi, _ = si.ref()
+        try:
+            Ei = si.f(arg=(ni, dict(meta)))
+        except Exception as exc:
+            return ("(integer array, meta) raises %s: %s" % (
+                type(exc).__name__, str(exc)[:80]))
+        r = close_outside_band(Ef, Ei, disti, condi)
+        if r:
+            return ("(integer array, meta) vs the same numbers as float64: "
+                    "event %d: %r vs %r" % (r[0], r[2], r[1]))
     _REG["n"] += 1
     ident = "verif-lut-%d-%d" % (os.getpid(), _REG["n"])
     path = os.path.join(scratch, ident + ".txt")
     sc.L.write(path, ident)
     raw = open(path, "rb").read()
-    E0 = sc.f()
     E1 = sc.f(arg=path)
     load.register_lut(path)
     try:
@@ -1545,19 +1957,40 @@ def chk_dataset(sc, rng, scratch):
         ds.config["setup"]["channel width"] = sc.cw
         ds.config["imaging"]["pixel size"] = sc.px
         ds.config["calculation"]["emodulus lut"] = ident
+        variant = rng.choice(["plain", "plain", "no-model-key",
+                              "both-temperatures", "reservoir"])
         if med["kind"] == "num":
             ds.config["calculation"]["emodulus viscosity"] = med["v"]
             want = "B"
         else:
             ds.config["calculation"]["emodulus medium"] = med["name"]
-            ds.config["calculation"]["emodulus viscosity model"] = \
-                med["model"] if med["model"] != "herold-2017-fallback" \
+            model = med["model"] if med["model"] != "herold-2017-fallback" \
                 else "herold-2017"
+            if variant == "no-model-key" and MEDIA[med["name"]] in (
+                    "0.49% MC-PBS", "0.59% MC-PBS"):
+                # documented fallback when the key is absent: herold-2017
+                med = dict(med, model="herold-2017")
+            else:
+                ds.config["calculation"]["emodulus viscosity model"] = model
+                med = dict(med, model=model)
             if route_of(med) == "scalar":
                 ds.config["calculation"]["emodulus temperature"] = med["temp"]
                 want = "C"
+                if variant == "both-temperatures":
+                    # the configured temperature takes precedence over a
+                    # "temp" feature (case C before case A)
+                    ds2 = dclab.new_dataset(dict(
+                        data, temp=np.full(sc.x.size, med["temp"] + 3.0)))
+                    ds2.config.update(ds.config)
+                    ds = ds2
             else:
                 want = "A"
+        if variant == "reservoir":
+            ds.config["setup"]["chip region"] = "reservoir"
+            if "emodulus" in ds:
+                return ("case %s: emodulus is available for a reservoir "
+                        "measurement" % want)
+            return None
         if "emodulus" not in ds:
             return "case %s: emodulus not available in the dataset" % want
         with np.errstate(all="ignore"):
@@ -1637,7 +2070,7 @@ def chk_rewrite(sc, rng, scratch):
         nodes[:, 2] = nodes[:, 2] * k + 0.25
         if k > 2:                      # other support as well
             nodes[:, 1] = nodes[:, 1] * 0.75
-        return Lut(L.feat, L.cw, L.fr, L.visc, nodes)
+        return Lut(L.feat, L.cw, L.fr, L.visc, nodes, grid=L.grid)
 
     def write_fixed(L, extra=False):
         m = L.meta(ident)
@@ -1656,13 +2089,13 @@ def chk_rewrite(sc, rng, scratch):
             fd.write("\n".join(lines) + "\n")
         # what np.loadtxt will read
         return Lut(L.feat, L.cw, L.fr, L.visc,
-                   [[float("%.17e" % float(v)) for v in r] for r in L.nodes])
+                   [[float("%.17e" % float(v)) for v in r] for r in L.nodes],
+                   grid=L.grid)
 
     def expect(Lc, how, arg):
         scc = Scn(dict(sc.case, lut=lut_to_case(Lc)))
         E = scc.f(arg=arg)
-        R, dist, cond, _ = scc.ref()
-        bad = compare_values(R, E, dist, cond)
+        bad, R, dist, cond = compare_with_reference(scc, E)
         if bad:
             i = bad[0]
             return ("%s: event %d (x=%r, deform=%r): get_emodulus=%r but the "
@@ -1709,13 +2142,14 @@ def chk_rewrite(sc, rng, scratch):
         return why
     arr[:, 2] *= 2.0
     arr[:, 0] *= 1.25
-    L2 = Lut(L1.feat, L1.cw, L1.fr, L1.visc, arr.copy())
+    L2 = Lut(L1.feat, L1.cw, L1.fr, L1.visc, arr.copy(), grid=L1.grid)
     why = expect(L2, "(array, meta) after the caller modified the array in "
                  "place", (arr, meta))
     if why:
         return why
     meta["fluid_viscosity"] = L1.visc * 2
-    L3 = Lut(L1.feat, L1.cw, L1.fr, L1.visc * 2, arr.copy())
+    L3 = Lut(L1.feat, L1.cw, L1.fr, L1.visc * 2, arr.copy(),
+             grid=L1.grid)
     return expect(L3, "(array, meta) after the caller modified the meta "
                   "dict", (arr, meta))
 
@@ -1867,11 +2301,24 @@ def oracle_cases(run):
                 case["check"] = chk
                 case["rseed"] = rng.randrange(1 << 30)
                 out.append((case, kinds))
+    # size-dependent code paths: large batches on a cheap table
+    for chk in ("reference", "batch", "scalar_vs_array"):
+        L = gen_user_lut(rng, dyadic=False, nmax=60)
+        case, kinds = gen_scenario(rng, L, 60000 if th else 22000,
+                                   nice=False, special=(chk == "reference"),
+                                   force_med="per-event" if chk == "batch"
+                                   else None)
+        case["check"] = chk
+        case["rseed"] = rng.randrange(1 << 30)
+        out.append((case, kinds))
     # generated tables: many calls, few events
     for k in range(1500 if th else 90):
         vol = k % 4 == 0
-        L = gen_user_lut(rng, dyadic=rng.random() < 0.3, nmax=60,
-                         feat="volume" if vol else None)
+        if k % 4 == 2:
+            L = gen_grid_lut(rng)
+        else:
+            L = gen_user_lut(rng, dyadic=rng.random() < 0.3, nmax=60,
+                             feat="volume" if vol else None)
         for chk in names:
             if chk == "isoelastics" or (
                     rng.random() < 0.5 and chk not in ("reference", "batch",
@@ -1915,7 +2362,9 @@ def oracle(run):
         run.record_case(case, n > 0, sample=n <= 8)
         run.count("oracle:%s" % case["check"])
         run.count("oracle:lut=%s" % (case["lut"].get("name")
-                                     or "user-" + case["lut"]["feat"]))
+                                     or ("grid-" if case["lut"].get("grid")
+                                         else "user-")
+                                     + case["lut"]["feat"]))
         run.count("oracle:events", n)
         run.count("oracle:route=%s" % route_of(case["medium"]))
         count_quota(run, case, "oracle")
@@ -2026,6 +2475,7 @@ def oracle_hypotheses(run):
 def run(run):
     correspondence(run)
     registry_correspondence(run)
+    history_correspondence(run)
     oracle(run)
 
 
@@ -2110,7 +2560,8 @@ def search(run, broken):
     import random
     rng = run.rng
     for k in range(600 if run.thorough else 100):
-        L = gen_user_lut(rng, dyadic=rng.random() < 0.3, nmax=60) \
+        L = (gen_grid_lut(rng) if k % 3 == 1 else
+             gen_user_lut(rng, dyadic=rng.random() < 0.3, nmax=60)) \
             if k % 10 else builtin_lut(rng.choice(BUILTIN))
         for chk in CHECKS:
             n = rng.choice([1, 3, 20, 100])
